@@ -105,6 +105,7 @@ def decide(pid, prop, tier, seed, results, extra, t0, args):
     known = load_known(pid)
     lock = load_lock(pid)
     violations, undecided, engine_errors, known_hits = [], [], [], []
+    kf_obligations = []
     discharged, ob_total = 0, 0
     names_ok, names_all = set(), set()
     by_backend = {}
@@ -127,12 +128,17 @@ def decide(pid, prop, tier, seed, results, extra, t0, args):
                 engine_errors.append(f"native {cname}: {r['error']}")
 
     def match_known(contract_name, ob_name, detail_case):
+        """A finding suppresses exactly one named obligation (the one the contract restricts to the
+        recorded failing input class) or, for native findings, one recorded input."""
         for f in known:
             if f.get("contract") and f["contract"] != contract_name:
                 continue
-            if f.get("obligation") and not ob_name.startswith(f["obligation"]):
-                continue
-            return f
+            if f.get("obligation"):
+                if ob_name != f["obligation"]:
+                    continue
+                return f
+            if f.get("native_input") is not None and jsonable(detail_case) == f["native_input"]:
+                return f
         return None
 
     for kind, cname, r in results:
@@ -159,7 +165,12 @@ def decide(pid, prop, tier, seed, results, extra, t0, args):
             # not discharged
             nat = native_by_contract.get(r["contract"])
             rec = {"contract": r["contract"], "case": r["case"], "obligation": ob["name"], "verdict": ob["verdict"], "closed_path": ob["closed"], "where": ob["where"], "note": ob.get("note"), "model": ob.get("model"), "witness": ob.get("witness"), "replay": ob.get("replay"), "replay_detail": ob.get("replay_detail"), "replay_error": ob.get("replay_error"), "witness_error": ob.get("witness_error")}
-            if ob["verdict"] == "sat" and ob.get("replay") == "fails":
+            kf = match_known(r["contract"], ob["name"], None)
+            if kf is not None and kf.get("obligation") == ob["name"]:
+                known_hits.append((kf, rec))
+                ob_total -= 1  # counted separately: an obligation restricted to a recorded failing input class
+                kf_obligations.append(ob["name"])
+            elif ob["verdict"] == "sat" and ob.get("replay") == "fails":
                 rec["how"] = "solver counterexample replayed on the real code"
                 violations.append(rec)
             elif nat and nat["failures"]:
@@ -175,7 +186,7 @@ def decide(pid, prop, tier, seed, results, extra, t0, args):
 
     # names: an obligation name counts as discharged only if every instance is
     bad_names = {v["obligation"] for v in violations} | {u["obligation"] for u in undecided}
-    names_ok = names_all - bad_names
+    names_ok = names_all - bad_names - set(kf_obligations)
 
     # bounded stand-ins: contracts whose symbolic run is unsupported, or native-only contracts
     sym_contracts = {r["contract"] for k, _, r in results if k == "sym"}
@@ -221,7 +232,26 @@ def decide(pid, prop, tier, seed, results, extra, t0, args):
         for n in missing:
             undecided.append({"contract": n.split("/")[0], "obligation": n, "verdict": "missing", "note": "obligation listed in the lock file was not generated on this tree"})
 
-    # known findings
+    # known findings: each recorded witness is replayed on the real code on every run
+    stale = []
+    for f in known:
+        if f.get("witness") is None or not (f.get("witness_contract") or f.get("contract")):
+            continue
+        for c in prop.CONTRACTS:
+            try:
+                inst = c()
+            except Exception:
+                continue
+            if inst.name == (f.get("witness_contract") or f["contract"]) and getattr(c, "has_native", False):
+                try:
+                    fail = inst.native_check(f["witness"])
+                except Exception as exc:
+                    fail = f"{type(exc).__name__}: {exc}"
+                if fail:
+                    if not any(k is f for k, _ in known_hits):
+                        known_hits.append((f, {"contract": f["contract"], "obligation": f.get("obligation", "native"), "replay_detail": fail}))
+                else:
+                    stale.append(f["id"])
     real_violations = []
     for v in violations:
         f = match_known(v["contract"], v["obligation"], v.get("witness"))
@@ -294,7 +324,9 @@ def decide(pid, prop, tier, seed, results, extra, t0, args):
             "all_parts_deductive": all_deductive,
             "samples": samples[:8],
             "undecided": [jsonable(u) for u in undecided][:20],
-            "known_findings_reported": [f["id"] for f, _ in known_hits],
+            "known_findings_reported": sorted({f["id"] for f, _ in known_hits}),
+            "known_finding_obligations_not_counted": sorted(set(kf_obligations)),
+            "known_findings_no_longer_reproducing": stale,
             "explanation": getattr(prop, "EXPLANATION", ""),
             "evaluations": ob_total + sum(s["cases"] for s in standins),
             "distinct_nontrivial": len(names_all) + sum(s["cases"] for s in standins),
